@@ -58,6 +58,31 @@
 // (`r.bc.Encrypt`, `a2.id`, `(crypto/cipher.Block).Encrypt`, `crypto/aes.NewCipher`).  Same-package helpers that a translated
 // function calls are translated on demand with the caller's flags (a refactoring that extracts a helper then reaches the tie
 // theorems instead of failing here).  tools/migrate_names.py is the one-off script that moved the proofs to the canonical names.
+// Decision / glue logic (round 4): beyond byte-level code the fragment covers candidate loops and option handling with the
+// data they run over kept ABSTRACT:
+//   -ignore c1,c2,…   (unit level) calls of these callees in statement position are dropped — monitoring loggers; they have
+//                     no influence on results; also inside `if err != nil { log; return …, err }` guards.
+//   -step fn:callee=name   a value-returning method that also advances its abstract receiver (`v, ok := it.Next()`,
+//                     `_, err := km.AddKeyWithOpts(k, tok, opts…)`): name : Obj → args… → results… × Obj; arguments of an
+//                     empty struct type (tokens) are dropped, a variadic tail is a list, an error result is the Bool
+//                     "is an error".  An abstract object behind a pointer that is handed to a translated callee which steps it
+//                     must not be read again before it is re-assigned (refused otherwise).
+//   -abs also names unnamed map / function types by their printed form ('map[string]*pkg.T=Fields', 'func() hash.Hash=HashFn');
+//                     pointers to and instantiations of an abstract named type are that abstract type; the type parameters of a
+//                     generic receiver are abstract types P with a zero value P_zero (`*new(P)`).
+//   abstract objects: `x == nil` is the abstract predicate <Type>_isNil; `_, ok := m[k]` on an abstract map is <Type>_has;
+//                     a field of an abstract LOCAL object (loop variable, call result) is the abstract projection <Type>_<field>;
+//                     a field of an abstract parameter is a further (independent) abstract parameter; &obj is obj.
+//   kinds:            `[]T` for T a record / abstract type / string / []byte is `List`; `map[string][]T` is a function
+//                     Bytes → List T (store = function update); `*string`, `*uint32`, … are `Option` (nil test, `*p`, `&v` of a
+//                     never-assigned variable); strings / byte arrays compare with == / !=; a struct field of error type is the
+//                     Bool "is non-nil" (returning it inside `if f.err != nil {…}` is the error case).
+//   control:          `if err != nil { continue / break }` after a call inside a loop; `for init; cond; post` with `continue`
+//                     (the post statement runs on continue); `err := f()` kept as a Bool when only compared with nil;
+//                     `v1, …, vn, err := f()`; `return g()` forwarding a tuple; `if c { v, err = f() } else { v, err = g() }`
+//                     followed by the error guard; `new(T)` / `&T{…}` of a record type; a result declared `any` that always
+//                     is a value of one static type is typed by it; methods of another receiver type of the same package
+//                     (translated by an earlier unit) called through a field path re-root their receiver paths.
 // Never silent: an unknown construct, a missing function / marker, a receiver field assigned outside -stateful, a written
 // slice parameter that no return hands back, several random draws under -fill … are errors (non-zero exit; check reports the
 // owner properties' tie as broken).
@@ -108,6 +133,8 @@ type unit struct {
 	extern         map[string][]externOp
 	externKind     map[string]string // callee -> "read" | "write"
 	errcodes       map[string]int    // sentinel errors (printed form, e.g. io.EOF or ErrTooManySegments) -> code ≥ 2
+	closures       map[string]string   // -closure newName=fn: the single function literal in the body of fn, translated as the function newName
+	read           map[string][]opq    // -read fn:callee=name: `_, err := io.ReadFull(r, buf); if err != nil {…}`: name : R → Int → Option Bytes
 	ignore         []string            // -ignore: callees whose calls (statements) have no influence on results (monitoring)
 	step           map[string][]opq    // -step fn:callee=name: value-returning method that also changes its abstract receiver
 	abs            map[string]string   // -abs pkgpath.Type -> Lean type variable
@@ -169,7 +196,7 @@ func init() {
 // patternsOf: all callee patterns the flags give for a function
 func (u *unit) patternsOf(fn string) []string {
 	var r []string
-	for _, l := range [][]opq{u.opaque[fn], u.block[fn], u.apply[fn], u.fill[fn], u.ctor[fn], u.inout[fn], u.mutate[fn], u.step[fn]} {
+	for _, l := range [][]opq{u.opaque[fn], u.block[fn], u.apply[fn], u.fill[fn], u.ctor[fn], u.inout[fn], u.mutate[fn], u.step[fn], u.read[fn]} {
 		for _, o := range l {
 			r = append(r, o.callee)
 		}
@@ -249,7 +276,7 @@ func main() {
 			cur = &unit{dir: v, opaque: map[string][]opq{}, block: map[string][]opq{}, abstract: map[string][]string{},
 				apply: map[string][]opq{}, fill: map[string][]opq{}, ctor: map[string][]opq{}, repr: map[string]kind{}, inout: map[string][]opq{},
 				emitted: map[string]bool{}, procs: map[string]int{}, sigs: map[string]*fsig{}, inProgress: map[string]bool{}, failedHelper: map[string]bool{},
-				step: map[string][]opq{}, abs: map[string]string{}, mutate: map[string][]opq{}, records: map[string][]string{}, stateful: map[string]bool{}, extern: map[string][]externOp{}, externKind: map[string]string{}, errcodes: map[string]int{}}
+				step: map[string][]opq{}, closures: map[string]string{}, read: map[string][]opq{}, abs: map[string]string{}, mutate: map[string][]opq{}, records: map[string][]string{}, stateful: map[string]bool{}, extern: map[string][]externOp{}, externKind: map[string]string{}, errcodes: map[string]int{}}
 			cur.sub = strings.Title(filepath.Base(v))
 			t.units = append(t.units, cur)
 		case "-sub":
@@ -291,6 +318,19 @@ func main() {
 				die("bad -repr %q", v)
 			}
 			cur.repr[ty] = kk
+		case "-closure": // newName=fn
+			nn, fn, ok := strings.Cut(v, "=")
+			if !ok {
+				die("bad -closure %q", v)
+			}
+			cur.closures[nn] = fn
+		case "-read": // fn:callee=name
+			fn, rest, ok := strings.Cut(v, ":")
+			callee, name, ok2 := strings.Cut(rest, "=")
+			if !ok || !ok2 {
+				die("bad -read %q", v)
+			}
+			cur.read[fn] = append(cur.read[fn], opq{callee, name})
 		case "-ignore": // callee,callee…  (unit level)
 			cur.ignore = append(cur.ignore, splitList(v)...)
 		case "-step": // fn:callee=name
@@ -447,6 +487,12 @@ func (t *tr) load(u *unit, imp types.Importer) {
 				if st, ok := rt.(*ast.StarExpr); ok {
 					rt = st.X
 				}
+				if ix, isIx := rt.(*ast.IndexExpr); isIx {
+					rt = ix.X // a generic receiver T[P]
+				}
+				if ix, isIx := rt.(*ast.IndexListExpr); isIx {
+					rt = ix.X
+				}
 				id, ok := rt.(*ast.Ident)
 				if !ok || (u.recv != "" && id.Name != u.recv) {
 					continue
@@ -460,6 +506,34 @@ func (t *tr) load(u *unit, imp types.Importer) {
 			}
 			u.decls[fd.Name.Name] = fd
 		}
+	}
+	// -closure: the single function literal of a registration function becomes a function of its own
+	for nn, fn := range u.closures {
+		host, ok := u.decls[fn]
+		if !ok {
+			t.errs = append(t.errs, "-closure: function "+fn+" not found in "+u.dir)
+			continue
+		}
+		var lits []*ast.FuncLit
+		ast.Inspect(host.Body, func(nd ast.Node) bool {
+			if fl, ok := nd.(*ast.FuncLit); ok {
+				lits = append(lits, fl)
+				return false
+			}
+			return true
+		})
+		if len(lits) != 1 {
+			t.errs = append(t.errs, fmt.Sprintf("-closure: %s contains %d function literals (want exactly 1)", fn, len(lits)))
+			continue
+		}
+		sig, _ := u.info.TypeOf(lits[0]).(*types.Signature)
+		if sig == nil || u.pkg == nil {
+			t.errs = append(t.errs, "-closure: no type for the function literal of "+fn)
+			continue
+		}
+		name := &ast.Ident{NamePos: lits[0].Pos(), Name: nn}
+		u.info.Defs[name] = types.NewFunc(lits[0].Pos(), u.pkg, nn, sig)
+		u.decls[nn] = &ast.FuncDecl{Name: name, Type: lits[0].Type, Body: lits[0].Body}
 	}
 }
 
